@@ -4,7 +4,7 @@ from ._famprop import make
 
 
 def FAMS(tier):
-    base = ["D", "R", "O", "K", "C", "V", "M", "U", "G", "CG", "H", "LONG"]
+    base = ["D", "R", "O", "K", "C", "V", "M", "U", "G", "CG", "H", "DF", "LONG"]
     return base if tier == "quick" else base + ["E", "S", "T"]
 
 
